@@ -14,6 +14,7 @@
 //   raw   <fv> <version> <flags> <op> <stream> <body>   model-vs-code: malformed bodies (truncations, bad counts), outcome ok/err/crash
 //   rows  <api> <dests> <fv> <logical response> <wire>   spec-backed: cells through scan|scanner|mapscan|slicemap
 //   rowsx <api> <dests> <fv> <logical response> <wire>   model-vs-code: nil destinations, known-finding shapes (KF-C04-2, KF-C04-3), malformed rows
+//   skip / skipx  end to end through a real Session on the in-memory cluster, see e2e.go
 package main
 
 import (
@@ -253,6 +254,8 @@ func exec(op string) (res string) {
 		return d
 	case "rows", "rowsx":
 		return execRows(w[1], w[2], atoi(w[3]), unhex(w[len(w)-1]))
+	case "skip", "skipx":
+		return execSkip(w)
 	}
 	return "bad-op"
 }
